@@ -119,7 +119,8 @@ func c10R1(c *Ctx, info *effectsInfo) {
 			src := fmt.Sprintf("P%d", pi)
 			var w *effects.Effect
 			for _, dst := range sortedStr(s.Retains) {
-				if effects.ParamIndex(dst) != 0 {
+				// destinations that outlive the call: the receiver and package-level variables
+				if effects.ParamIndex(dst) != 0 && effects.GlobalName(dst) == "" {
 					continue
 				}
 				if e, ok := s.Retains[dst][src]; ok && w == nil {
